@@ -154,7 +154,7 @@ func buildTree(c *harness.Ctx, dir string, depth int, desc *[]string) {
 			os.WriteFile(p, []byte("package user // "+p), 0644)
 			*desc = append(*desc, p)
 		case "other":
-			p := filepath.Join(dir, []string{name + ".txt", name + ".gr.go.bak", "x" + suffix + ".orig", ".hidden"}[c.Choose(4, "othername")])
+			p := filepath.Join(dir, []string{name + ".txt", name + ".gr.go.bak", "x" + suffix + ".orig", ".hidden", name + ".gr.json", "NOTES.gr.md", name + ".gr.go~", "gr.go", name + ".gr", "go-restli-manifest.gr.json.bak", name + ".gr.txt", "Custom.go"}[c.Choose(12, "othername")])
 			os.WriteFile(p, []byte("other "+p), 0600)
 			*desc = append(*desc, p)
 		case "manifest":
